@@ -76,9 +76,29 @@ type catTx struct {
 type catalog struct {
 	Tx      map[string]catTx `json:"tx"`
 	Genesis []catOut         `json:"genesis"`
-	Award   int64            `json:"award"`
+	Award   catAward         `json:"award"`
+	Awards  []int64          `json:"awards"` // award of a block at height h = Awards[h-1] (computed by the specification)
 	Keys    []string         `json:"keys"`
 	Addrs   []string         `json:"addrs"`
+}
+
+// catAward is the award schedule of the chain: base, multiplied by num/den every gap blocks (gap 0: no decay).
+type catAward struct {
+	Base int64 `json:"base"`
+	Gap  int64 `json:"gap"`
+	Num  int64 `json:"num"`
+	Den  int64 `json:"den"`
+}
+
+// awardAt is the award the specification prescribes for a block at height h.
+func (c *catalog) awardAt(h int64) int64 {
+	if c.Award.Gap == 0 {
+		return c.Award.Base
+	}
+	if h >= 1 && int(h) <= len(c.Awards) {
+		return c.Awards[h-1]
+	}
+	return -1
 }
 
 func loadCatalog(path string) (*catalog, error) {
@@ -149,8 +169,12 @@ func newXSim(name string, cat *catalog, window int) (*xsim, error) {
 		pre[o.To] = new(big.Int).Mul(big.NewInt(o.Amt), amtScale).String()
 		order = append(order, o.To)
 	}
-	g := fx.Genesis(fx.GenesisOpts{Predist: pre, PredistList: order, Award: new(big.Int).Mul(big.NewInt(cat.Award), amtScale).String(), Window: window, Miner: "m", MaxBlockMB: maxBlockMB,
-		NoDecay: amtScale.Cmp(big.NewInt(1)) != 0}) // CalcAward's decay path works on int64: scaled awards need the exact path
+	g := fx.Genesis(fx.GenesisOpts{Predist: pre, PredistList: order, Award: new(big.Int).Mul(big.NewInt(cat.Award.Base), amtScale).String(), Window: window, Miner: "m", MaxBlockMB: maxBlockMB,
+		NoDecay:  amtScale.Cmp(big.NewInt(1)) != 0, // CalcAward's decay path works on int64: scaled awards need the exact path
+		DecayGap: cat.Award.Gap, DecayNum: cat.Award.Num, DecayDen: cat.Award.Den})
+	if cat.Award.Gap != 0 && amtScale.Cmp(big.NewInt(1)) != 0 {
+		return nil, fmt.Errorf("a decaying award schedule cannot be combined with -scale")
+	}
 	s := &xsim{cat: cat, name: name, window: window, genesis: g, txs: map[string]*pb.Transaction{}, names: map[string]string{},
 		ids: map[string]int{}, blocks: map[int]*pb.InternalBlock{}, n: 1, recover: make(chan struct{}, 16)}
 	node, err := fx.NewNode(name, g)
@@ -308,10 +332,10 @@ func (s *xsim) tx(name string) (*pb.Transaction, error) {
 	return tx, nil
 }
 
-func (s *xsim) award(b int) *pb.Transaction {
+func (s *xsim) award(b int, height int64) *pb.Transaction {
 	name := "aw" + strconv.Itoa(b)
 	tx := &pb.Transaction{Version: 3, Coinbase: true, Desc: []byte(name), Timestamp: int64(1000 + b)}
-	tx.TxOutputs = []*protos.TxOutput{{ToAddr: []byte(addrOf("m")), Amount: amtBytes(s.cat.Award, true)}}
+	tx.TxOutputs = []*protos.TxOutput{{ToAddr: []byte(addrOf("m")), Amount: amtBytes(s.cat.awardAt(height), true)}}
 	tx.Txid, _ = txhash.MakeTransactionID(tx)
 	s.names[hex.EncodeToString(tx.Txid)] = name
 	return tx
@@ -341,7 +365,7 @@ func (s *xsim) build(p int, names []string) (*pb.InternalBlock, error) {
 		return nil, fmt.Errorf("unknown parent %d", p)
 	}
 	b := s.n + 1
-	aw := s.award(b)
+	aw := s.award(b, pb0.Height+1)
 	list := []*pb.Transaction{aw}
 	for _, nm := range names {
 		t, err := s.tx(nm)
